@@ -15,8 +15,29 @@ Proof.
   rewrite !apply_write_cons. destruct (apply_ew_setH e h y) as [h1 E]. rewrite E. apply IH.
 Qed.
 
-Lemma reorg_setH : forall t h y o n, reorg t (setH h y) o n = reorg t y o n.
+Lemma parent_block_setH : forall t h y x, parent_block t (setH h y) x = parent_block t y x.
 Proof. reflexivity. Qed.
+
+Lemma walk_down_setH : forall t h y fuel x n acc, walk_down t fuel (setH h y) x n acc = walk_down t fuel y x n acc.
+Proof.
+  intros t h y. induction fuel as [|f IH]; intros x n acc; cbn [walk_down]; auto.
+  rewrite parent_block_setH. destruct (bnum x =? n); auto. destruct (parent_block t y x); auto.
+Qed.
+
+Lemma find_common_setH : forall t h y fuel o n oc nc, find_common t fuel (setH h y) o n oc nc = find_common t fuel y o n oc nc.
+Proof.
+  intros t h y. induction fuel as [|f IH]; intros o n oc nc; cbn [find_common]; auto.
+  rewrite !parent_block_setH. destruct (bid o =? bid n); auto.
+  destruct (parent_block t y o); auto. destruct (parent_block t y n); auto.
+Qed.
+
+Lemma reorg_setH : forall t h y o n, reorg t (setH h y) o n = reorg t y o n.
+Proof.
+  intros. unfold reorg, reorg_chains. rewrite !walk_down_setH.
+  destruct (bnum n <? bnum o).
+  - destruct (walk_down t (fuel_of o) y o (bnum n) []) as [[o' oc]|]; auto. rewrite find_common_setH. reflexivity.
+  - destruct (walk_down t (fuel_of n) y n (bnum o) []) as [[n' nc]|]; auto. rewrite find_common_setH. reflexivity.
+Qed.
 
 Section Step.
 Variable t : tree.
@@ -77,9 +98,10 @@ Qed.
 
 Lemma apply_gsw_setH : forall h d, apply_write gsw_w (setH h d) = apply_write gsw_w d.
 Proof.
-  intros h d. unfold gsw_w. rewrite !app_assoc. rewrite !apply_write_app.
-  match goal with |- apply_write (stage_head b) (apply_write ?w (setH h d)) = _ =>
-    destruct (apply_setH w h d) as [h' E]; rewrite E end.
+  intros h d. unfold gsw_w. rewrite !apply_write_app.
+  destruct (apply_setH rc_w h d) as [h1 E1]. rewrite E1.
+  destruct (apply_setH rg h1 (apply_write rc_w d)) as [h2 E2]. rewrite E2.
+  destruct (apply_setH (map (fun tx => WLook tx (bid b)) (btxs b)) h2 (apply_write rg (apply_write rc_w d))) as [h3 E3]. rewrite E3.
   reflexivity.
 Qed.
 
@@ -231,10 +253,70 @@ Proof.
                   else match info t (cur s2) with Some c => reorg t (disk_of s2) c b | None => None end) = Some rg).
     { rewrite C2, Hc. rewrite c0_id, Hc0. rewrite <- c0_id. rewrite <- Hrg. rewrite E2. reflexivity. }
     rewrite Er. cbn [fst snd disk_of cur set_future set_cur].
-    fold gsw_w.
-    destruct (wr_disk_cases gsw_w s2) as [[E3 D3]|[A3 E3]]; rewrite E3, E2.
-    + split; auto. intros Ha. exfalso. apply D3. eapply wr_alive_back; eauto.
-    + split; auto.
+    match goal with |- context [wr ?w s2] => destruct (wr_disk_cases w s2) as [[E3 D3]|[A3 E3]]; rewrite E3, E2 end.
+    + split; auto. intros Ha. exfalso. apply D3. unfold alive in Ha. cbn [budget set_future set_cur] in Ha.
+      eapply wr_alive_back. exact Ha.
+    + split; [right; right; right; reflexivity|]. intros _. split; [reflexivity|]. split; reflexivity.
+Qed.
+
+(* ---- the database after the complete step ------------------------------------------------ *)
+
+Hypothesis Hfa : forall n, bnum b < n -> canon d0 n = None.
+
+(* the head-switch batch has the shape analysed in ProofsE *)
+Lemma g3_shape : exists ncl diff, g3 = applyl (switch_l ncl diff rc_w b) g2 /\ (forall x, In x ncl -> bnum x <= bnum b).
+Proof.
+  destruct (bpar b =? bid c0) eqn:Elin.
+  - injection Hrg as Erg. exists [], []. split; [|intros x []].
+    unfold g3, gsw_w. rewrite <- Erg. rewrite <- apply_write_concat, <- switch_batch_concat. reflexivity.
+  - unfold reorg in Hrg. destruct (reorg_chains t g2 c0 b) as [[oc nc]|] eqn:Erc; try discriminate.
+    injection Hrg as Erg.
+    assert (Hsc0 : In (bid c0) (d_hdr g2)).
+    { destruct HG0 as [HD _]. pose proof (D_head t g d0 HD) as Hd. rewrite c0_id.
+      unfold g2, g1, gst_w. destruct (broot b =? broot p); simpl; apply In_addN; auto. }
+    assert (Hsb : In (bid b) (d_hdr g2)).
+    { unfold g2, g1, gst_w. destruct (broot b =? broot p); simpl; apply In_addN; auto. }
+    assert (Hc0i : info t (bid c0) = Some c0) by (rewrite c0_id; auto).
+    destruct (reorg_chains_spec t _ _ _ _ _ Erc Hc0i Hb Hsc0 Hsb) as [c [Q1 [Q2 [Q3 [Q4 Q5]]]]].
+    exists (rev nc), (filter (fun x => negb (memN x (all_txs nc))) (all_txs oc)). split.
+    + unfold g3, gsw_w. rewrite <- Erg. rewrite <- apply_write_concat, <- switch_batch_concat. reflexivity.
+    + intros x Hx. apply in_rev in Hx. pose proof (down_path_heights t g2 nc c Q2 x Hx) as Hh2.
+      rewrite Q4 in Hh2. lia.
+Qed.
+
+Lemma g3_facts :
+  Good t g g3 /\ info t (d_headB g3) = Some b /\ d_headB g3 = bid b /\
+  (forall n, bnum b < n -> canon g3 n = None) /\
+  apply_write [WHeadH (d_headB g3)] g3 = g3 /\
+  (forall h, In h (d_hdr d0) -> In h (d_hdr g3)) /\ (forall h, In h (d_body d0) -> In h (d_body g3)) /\
+  (forall r, In r (d_state d0) -> In r (d_state g3)).
+Proof.
+  destruct p_facts as [P1 [P2 [P3 [P4 P5]]]].
+  set (s := mkS d0 (bid c0) [] [] None).
+  assert (HJ : J t g s) by (split; auto; intros _; simpl; apply c0_id).
+  assert (Hw : J t g (fst (write_block_with_state t p b s))).
+  { apply (J_wbws t g); auto.
+    - unfold goodish, good_block. rewrite Hhv, Hbv. reflexivity.
+    - exists p. split; auto. lia. }
+  destruct (wbws_gen s GF0 eq_refl eq_refl) as [_ [W2 [W3 W4]]].
+  destruct Hw as [HGw HCw]. rewrite W2 in HGw.
+  assert (Hh : d_headB g3 = bid b).
+  { rewrite <- W2. rewrite <- HCw; auto. unfold alive. rewrite W4. discriminate. }
+  assert (Hrc : rc_ok rc_w). { unfold rc_w. destruct (btxs b); [left; auto|right; eexists; eauto]. }
+  destruct g3_shape as [ncl [diff [E Hncl]]].
+  destruct (switch_fields ncl diff rc_w b g2 Hrc) as [[S1 [S2 [S3 S4]]] [_ [Fc _]]]. rewrite <- E in S1, S3, S4, Fc.
+  split; [exact HGw|]. split; [rewrite Hh; auto|]. split; [exact Hh|]. split; [|split; [|split; [|split]]].
+  - intros n Hn.
+    assert (Hc2 : d_canon g2 = d_canon d0).
+    { unfold g2, g1, gst_w. destruct (broot b =? broot p); reflexivity. }
+    unfold canon. rewrite Fc, alookup_aset. destruct (bnum b =? n) eqn:En; [apply N.eqb_eq in En; lia|].
+    rewrite canon_fold_other.
+    + rewrite Hc2. apply Hfa; auto.
+    + intros x Hx E2. apply Hncl in Hx. lia.
+  - rewrite Hh. unfold g3, gsw_w. rewrite !app_assoc, apply_write_app. reflexivity.
+  - intros h Hin. rewrite S3. unfold g2, g1, gst_w. destruct (broot b =? broot p); simpl; apply In_addN; auto.
+  - intros h Hin. rewrite S1. unfold g2, g1, gst_w. destruct (broot b =? broot p); simpl; apply In_addN; auto.
+  - intros r Hin. rewrite S4. unfold g2, g1, gst_w. destruct (broot b =? broot p); simpl; auto. apply In_addN; auto.
 Qed.
 
 End Step.
